@@ -123,11 +123,12 @@ class VIter(Value):
 # ------------------------------------------------------------------ Path
 
 class Obligation:
-    __slots__ = ('name', 'verdict', 'backend', 'path', 'model', 'detail', 'seconds')
+    __slots__ = ('name', 'verdict', 'backend', 'path', 'model', 'detail', 'seconds', 'known')
 
     def __init__(self, name, verdict, backend, path, model=None, detail=''):
         self.name, self.verdict, self.backend = name, verdict, backend
         self.path, self.model, self.detail = path, model, detail
+        self.seconds, self.known = 0.0, None
 
 
 class ClassDecl:
@@ -150,6 +151,8 @@ class World:
         self.externals = {}      # name -> python callable(ex, args, kwargs)
         self.inline = set()
         self.ghost = {}          # name -> shape
+        self.findings = {}       # 'qualname/obligation' -> [(finding id, witness clause)]
+        self.spec_funcs = {}
 
     def cls(self, name, **kw):
         self.classes[name] = ClassDecl(name, **kw)
@@ -215,8 +218,9 @@ class Path:
         if z3.is_false(cond):
             return False
         key = cond.get_id()
-        if key in self.decision_cache:
-            return self.decision_cache[key]
+        hit = self.decision_cache.get(key)
+        if hit is not None and hit[0].eq(cond):
+            return hit[1]
         idx = len(self.taken)
         if idx < len(self.prefix):
             b = self.prefix[idx]
@@ -233,8 +237,11 @@ class Path:
                     b = True
         self.taken.append(b)
         self.pc.append(cond if b else z3.Not(cond))
-        self.decision_cache[key] = b
-        self.decision_cache[z3.simplify(z3.Not(cond)).get_id()] = not b
+        # the expression is stored with the verdict: it keeps the AST alive, so
+        # its id cannot be reused by another term while the entry exists
+        self.decision_cache[key] = (cond, b)
+        neg = z3.simplify(z3.Not(cond))
+        self.decision_cache[neg.get_id()] = (neg, not b)
         return b
 
     def choose(self, n):
